@@ -36,6 +36,12 @@ class ConfigModels(CommonModels):
             return [(path, d)]
         return CommonModels.callable_(self, ex, path, obj, args, kw)
 
+    def pytype_of(self, ex, path, v):
+        import txtorcon.torconfig as tc
+        if isinstance(v, VList) and ('g', 'tracked', v.lid) in path.heap:
+            return tc._ListWrapper      # (a list subclass)
+        return CommonModels.pytype_of(self, ex, path, v)
+
     def contract_for(self, ex, path, f, args, kw):
         if f.qualname == 'TorConfig._find_real_name' and self.find_real_name_contract:
             # contract (proved in C11/_find_real_name): the unique key of parsers/config equal to the
